@@ -345,6 +345,9 @@ type callerResult struct {
 	closed    bool
 }
 
+// deadlocksSeen counts the deadlock verdicts of this worker process.
+var deadlocksSeen int
+
 func execUpload(c *fw.Ctx, cs uploadCase) {
 	rec := &recorder{}
 	srv, err := newScriptedServer(cs, rec)
@@ -442,7 +445,13 @@ wait:
 			c.Inconclusive(fmt.Sprintf("upload watchdog fired for %+v; events %v", cs, rec.dump()))
 			srv.close()
 			cancel()
-			<-doneCh
+			tr.CloseIdleConnections()
+			select {
+			case <-doneCh:
+			case <-time.After(10 * time.Second):
+				// the caller stays blocked; it is left behind so that the
+				// worker can report instead of hanging with it
+			}
 			c.JournalDone()
 			return
 		case <-tick.C:
@@ -464,6 +473,14 @@ wait:
 				if _, ok := rec.find("test", "cancel"); ok {
 					scriptOver = true
 				}
+			}
+			if _, ok := rec.find("caller", "cancel"); ok {
+				// Once the caller has cancelled the context the request is
+				// over whatever the server does (a request cancelled before
+				// it was sent never even reaches the server, whose script
+				// then never starts): nothing is left that could wake a
+				// blocked Write or Close.
+				scriptOver = true
 			}
 			if !scriptOver {
 				stable = 0
@@ -489,6 +506,7 @@ wait:
 		return map[string]interface{}{"case": cs, "events": rec.dump(), "written": res.written, "write_errors": res.writeErrs, "first_write_error": res.firstWErr, "close_error": fw.ErrString(res.closeErr)}
 	}
 	if hung {
+		deadlocksSeen++
 		c.Report(cellKey+"|deadlock", "Write/Close never returned although the server script has ended: stable blocked state "+last, wit())
 		// unblock everything so the worker can go on
 		srv.close()
